@@ -1,6 +1,6 @@
 (* RunMig.v -- line runners of the `mig` correspondence stream (C19).
 
-   mig <src> <dst> <prog> <bb> <cancel> <getfail> <storefail> <first> (<entry>)*
+   mig <src> <dst> <prog> <bb> <cancel> <getfail> <storefail> <idxfail> <first> (<entry>)*
      src,dst   : store kinds (i = raft.InmemStore, w = WAL, b = raft-boltdb); the
                  log model is the same contiguous-log spec for all of them
      prog      : 1 = non-nil progress channel, 0 = nil
@@ -8,6 +8,8 @@
      cancel    : - | k   ctx.Err() is non-nil from the k-th loop check on
      getfail   : - | idx src.GetLog(idx) fails
      storefail : - | k   the k-th dst.StoreLogs fails
+     idxfail   : - | f   src.FirstIndex() fails | c  the source store is closed
+                 (FirstIndex fails) | l  src.LastIndex() fails
      entry     : index term type data ext sec nsec
    observation: <res> <closed> <gets> <first> <last> <#batches> <len>* <#entries> <entry>*
 
@@ -19,6 +21,7 @@ Open Scope N_scope.
 
 Definition s_canceled : str := [99;97;110;99;101;108;101;100].     (* canceled *)
 Definition s_errfirst : str := [101;114;114;102;105;114;115;116].  (* errfirst *)
+Definition s_errlast : str := [101;114;114;108;97;115;116].     (* errlast *)
 Definition s_errget : str := [101;114;114;103;101;116].            (* errget *)
 Definition s_errstore : str := [101;114;114;115;116;111;114;101].  (* errstore *)
 Definition s_fuel : str := [102;117;101;108].                      (* fuel *)
@@ -33,6 +36,15 @@ Definition opt_nat (s : str) : option (option nat) :=
   | Some (Some n) => Some (Some (N.to_nat n))
   | Some None => Some None
   | None => None
+  end.
+
+(* (first_fail, last_fail) *)
+Definition parse_idxfail (s : str) : option (bool * bool) :=
+  match s with
+  | [45] => Some (false, false)            (* - *)
+  | [102] | [99] => Some (true, false)     (* f, c *)
+  | [108] => Some (false, true)            (* l *)
+  | _ => None
   end.
 
 Definition parse_bool (s : str) : option bool :=
@@ -62,7 +74,7 @@ Definition show_entry (e : entry) : list str :=
 
 Definition show_cres (r : cres) : str :=
   match r with
-  | COk => s_ok | CCanceled => s_canceled | CErrFirst => s_errfirst
+  | COk => s_ok | CCanceled => s_canceled | CErrFirst => s_errfirst | CErrLast => s_errlast
   | CErrGet => s_errget | CErrStore => s_errstore | COutOfFuel => s_fuel
   end.
 
@@ -78,16 +90,17 @@ Definition show_cresult (r : cresult) : str :=
 
 Definition run_mig (ts : list str) : str :=
   match ts with
-  | _src :: _dst :: prog :: bb :: cancel :: gf :: sf :: first :: ents =>
-      match parse_bool prog, hex_to_Z bb, opt_nat cancel, opt_N gf, opt_nat sf, hex_to_N first,
-            parse_entries (S (length ents)) ents with
-      | Some prog, Some bb, Some cancel, Some gf, Some sf, Some first, Some ents =>
+  | _src :: _dst :: prog :: bb :: cancel :: gf :: sf :: xf :: first :: ents =>
+      match parse_bool prog, hex_to_Z bb, opt_nat cancel, opt_N gf, opt_nat sf, parse_idxfail xf,
+            hex_to_N first, parse_entries (S (length ents)) ents with
+      | Some prog, Some bb, Some cancel, Some gf, Some sf, Some (ff, lf), Some first, Some ents =>
           let src := {| ls_first := first; ls_ents := ents |} in
           if wf_storeb src then
             show_cresult (copy_logs {| cancel_at := cancel; get_fail := gf; store_fail := sf;
+                                       first_fail := ff; last_fail := lf;
                                        has_progress := prog |} bb src empty_store)
           else s_bad
-      | _, _, _, _, _, _, _ => s_bad
+      | _, _, _, _, _, _, _, _ => s_bad
       end
   | _ => s_bad
   end.
